@@ -37,7 +37,7 @@ Definition tleaf (l : leaf) : tree :=
       (* first slot: 1 if the attribute is a list (never, in the model; the harness reports what it sees) *)
       match l_complex l with None => TZ 0 | Some (a, b) => TL [TZ 0; tuid a; tuid b] end;
       match l_corr l with None => TZ 0 | Some c => TL (map (fun p => TL [tuid (fst p); TZ (snd p)]) c) end;
-      match l_ens l with None => TZ 0 | Some e => TL (map tuid e) end].
+      match l_ens l with None => TZ 0 | Some (_, e) => TL (map tuid e) end].
 Definition tnode (n : node) : tree :=
   match n with NNone => TZ 0 | NConst => TZ 1 | NLeaf u => TL [TZ 2; tuid u] | NInt u sg => TL [TZ 3; touid u; tostr (fst sg); TZ (snd sg)] end.
 Definition trobj (r : robj) : tree :=
